@@ -8,5 +8,13 @@ def run(rep, tier, seed):
     rc, res = deductive_part(rep, 'C01', tier, seed)
     n, d, samples = op_part(rep, 'C01', tier, seed, kinds=('exp', 'log', 'sqrt', 'sin', 'cos', 'tan', 'arc', 'sinh', 'cosh', 'tanh', 'recip', 'square', 'neg', 'abs', 'sign', 'erf', 'daw', 'logit', 'expit', 'gamma', 'psi', 'poly', 'hyper', 'pow', 'rpow', 'clip', 'min', 'max'))
     rep.add_bounded('dispatch level: algopy.f / special.f on UTPM vs mpmath', n, d, 'every overloaded elementary/special function called through the public name; each coefficient compared with (1/d!) d^d/dt^d f(x(t)) computed by Faa di Bruno from mpmath high-precision derivatives of f (independent of algopy.nthderiv and of the spec recurrences)', samples, 'D<=5, 4 cells per array, P<=3')
+    import random
+    from bounded import opchecks
+    rng = random.Random(1100 + seed); m = 0; keys = set(); s2 = []
+    for name, case, fail in opchecks.complex_pass(rng, tier):
+        m += 1; keys.add((name, case['D'], case['P'], str(case['shapes'])))
+        if len(s2) < 2: s2.append(case)
+        if fail: rep.violation('op:' + name, 'complex', '%s (D=%d,P=%d,shapes=%s): %s' % (case['op'], case['D'], case['P'], case['shapes'], fail), {'kind': 'op', 'case': case, 'failure': fail})
+    rep.add_bounded('complex coefficients vs mpmath', m, len(keys), 'the analytic elementary functions (exp .. tanh, reciprocal, square, integer/real powers, r**x) on polynomials with complex coefficients at every order, against the Faa di Bruno composition of mpmath complex derivatives', s2, 'D<=5, P<=2, 3 cells per array')
     rep.assume(*[ASSUME[k] for k in ('A1', 'A3', 'A4', 'A5', 'A6', 'A8', 'A8b', 'A9', 'A10', 'A11', 'CPLX')])
     return rc
